@@ -177,6 +177,9 @@ def run_one(text):
                                                  for a, d in ((10.0, datetime.date(2025, 1, 5)), (12.5, datetime.date(2025, 1, 19)),
                                                               (7.25, datetime.date(2025, 2, 5)), (30.0, datetime.date(2025, 3, 9)))],
                                    num_months=12, variables={'threshold': 10})
+        ARMED[0] = False
+        view_txns0 = copy.deepcopy(ctx.transactions)   # (the copy itself calls id(): not part of the evaluation)
+        ARMED[0] = True
         v = EP.evaluate(text, ctx)
         out['view'] = 'value'
         out['view_value_class'] = classify_value(v)
@@ -188,6 +191,11 @@ def run_one(text):
     except BaseException as e:  # noqa
         out['view'] = 'py_error:' + type(e).__name__
     ARMED[0] = False
+    try:
+        if ctx.transactions != view_txns0 or ast.dump(tree) != dump0:
+            out['frame_ok'] = False   # evaluating a view filter wrote into the caller's transactions / the parsed expression
+    except NameError:
+        pass
     # ---- through a rules file: match / let / field / tag / transform / variable positions ----
     PHASE[0] = 'engine'
     rules_text = (f'v1 = {text}\nfield.memo = {text}\n\n[R1]\nlet: w = {text}\nmatch: contains("STARBUCKS")\n'
